@@ -3,7 +3,7 @@ inside structs / arrays / typed maps, as strings holding paths, through
 sub-pipeline boundaries, to several consumers, across mapped calls, with
 volatile / strict / retain annotations."""
 from mro import (arrx, call, collect, const, echo, length, lit, objx, pipeline, program, ref, self_, split,
-                 stage, struct, INST, CI, FILE, FILES, FMAP, FSTR, FSTRUCT, FDIR, FMSTRUCT, FASTRUCT, FILEODD, FSTRS, FDLINK)
+                 stage, struct, INST, CI, FILE, FILES, FMAP, FSTR, FSTRUCT, FDIR, FMSTRUCT, FASTRUCT, FILEODD, FSTRS, FDLINK, FDLINK2)
 
 
 def P_files(name, vol=None, retain=None, outs="file f, txt g, int n", rules=None):
@@ -250,7 +250,7 @@ def catalogue():
     # 19. a stage links a directory of reference data into its files directory and returns
     #     (retained) one file below the link; the rest of that directory is not the pipestance's
     P.append(program("vf_refdata", [],
-                     [P_files("P", outs="file f, file r", rules={"f": FILE, "r": FDLINK}, retain=["r"]), C_file("C1")],
+                     [P_files("P", outs="file f, file r, file r2", rules={"f": FILE, "r": FDLINK, "r2": FDLINK2}, retain=["r", "r2"]), C_file("C1")],
                      [pipeline("TOP", "int x", "string a",
                                [call("P", binds={"x": self_("x")}, vol=True),
                                 call("C1", binds={"f": ref("P", "f")})],
